@@ -170,6 +170,12 @@ def perform(db, op, workdir, rnd, front="lib"):
             cli(["tofu", "revoke", host, "--force"], home)
         else:
             db.revoke_by_hostname(host)
+    elif kind == "revokeNoPort":
+        host, port = HOSTS[op["h"]]
+        if front == "cli":
+            cli(["tofu", "revoke", host, "--port", "0"], home)
+        else:
+            db.revoke(host, rnd.choice([0, None]))
     elif front == "cli" and kind == "revoke":
         host, port = HOSTS[op["h"]]
         cli(["tofu", "revoke", host, "--port", str(port)], home)
@@ -403,6 +409,12 @@ def round_trip(rep, rnd, work, count):
                 continue
             fp = "sha256:" + "".join(rnd.choice("0123456789abcdef") for _ in range(64))
             fs = "20%02d-0%d-1%dT0%d:00:00+00:00" % (rnd.randint(10, 25), rnd.randint(1, 9), rnd.randint(0, 9), rnd.randint(0, 9))
+            if rnd.random() < 0.35:
+                # first seen on a machine whose clock ran ahead of this one's, or written down in another notation: the value
+                # is reproduced, not interpreted
+                fs = rnd.choice(["2%03d-0%d-1%dT0%d:00:00+00:00" % (rnd.randint(27, 999), rnd.randint(1, 9), rnd.randint(0, 9), rnd.randint(0, 9)),
+                                 "9999-12-31T23:59:59.999999+00:00", "2031-05-05 05:05:05", "2030-01-01T00:00:00Z",
+                                 "2044-02-03T04:05:06.123456+05:30", "1970-01-01T00:00:00+00:00", "0001-01-01T00:00:00+00:00"])
             rows[(host, port)] = (fp, fs)
             con.execute("INSERT INTO known_hosts VALUES (?,?,?,?,?)", (host, port, fp, fs, fs))
         con.commit()
